@@ -8,6 +8,7 @@ import (
 	"io"
 	"log"
 	"os"
+	"slices"
 	"sync"
 	"time"
 	"unsafe"
@@ -629,6 +630,12 @@ func (cachefile *cacheFile) SetData(stream *index.Stream, convertedPackets []ind
 func (cachefile *cacheFile) setData(streamID uint64, streamTime time.Time, convertedPackets []index.Data) error {
 	cachefile.rwmutex.Lock()
 	defer cachefile.rwmutex.Unlock()
+
+	// A packet without content cannot be stored: a size of zero means "switch
+	// the direction" (or the end of the stream) in the file format.
+	if slices.ContainsFunc(convertedPackets, func(p index.Data) bool { return len(p.Content) == 0 }) {
+		convertedPackets = slices.DeleteFunc(slices.Clone(convertedPackets), func(p index.Data) bool { return len(p.Content) == 0 })
+	}
 
 	if cachefile.freeSize >= cleanupMinFreeSize && cachefile.freeSize >= int64(float64(cachefile.fileSize)*cleanupMinFreeFactor) {
 		if err := cachefile.truncateFile(); err != nil {
